@@ -814,6 +814,8 @@ func runScenario(sc *Scenario, ev *env) (obs Obs, err error) {
 	res := runPeer(cc.c, ps, deadline, nil)
 	// whatever the script, the client is finished now: make sure the relay's copy loops can end
 	_ = cc.c.Close()
+	// a target that has not been dialed by now never will be (the client is done): stop waiting for it
+	ln.Close()
 	select {
 	case <-ts.done:
 	case <-time.After(time.Until(deadline) + time.Second):
